@@ -24,8 +24,10 @@ var (
 	actions   = []string{"", "NO ACTION", "CASCADE", "SET NULL", "SET DEFAULT", "RESTRICT"}
 )
 
-func isIntTy(k string) bool  { return k == "integer" || k == "int" || k == "bigint" }
-func isNumTy(k string) bool  { return isIntTy(k) || k == "real" || k == "double" || k == "numeric" || k == "decimal(10,2)" }
+func isIntTy(k string) bool { return k == "integer" || k == "int" || k == "bigint" }
+func isNumTy(k string) bool {
+	return isIntTy(k) || k == "real" || k == "double" || k == "numeric" || k == "decimal(10,2)"
+}
 func isTextTy(k string) bool { return k == "text" || k == "varchar(255)" }
 
 func (g *G) pick(l []string) string { return l[g.r.Intn(len(l))] }
@@ -47,7 +49,7 @@ func (g *G) def(k string) *Def {
 	}
 	switch {
 	case isIntTy(k):
-		return &[]Def{{V: "5"}, {V: "1"}, {V: "+13"}, {V: "42"}, {Raw: true, V: "1 + 1"}, {Raw: true, V: "abs(-3)"}, {Raw: true, V: "random()"}}[g.r.Intn(7)]
+		return &[]Def{{V: "5"}, {V: "1"}, {V: "+13"}, {V: "42"}, {Raw: true, V: "1 + 1"}, {Raw: true, V: "abs(-3)"}, {Raw: true, V: "random()"}, {Raw: true, V: "(1 + 1)"}, {Raw: true, V: "(abs(-3))"}}[g.r.Intn(9)]
 	case k == "boolean":
 		return &[]Def{{V: "true"}, {V: "false"}, {V: "1"}, {V: "0"}}[g.r.Intn(4)]
 	case isNumTy(k):
@@ -61,7 +63,7 @@ func (g *G) def(k string) *Def {
 	case k == "uuid":
 		return &Def{V: "00000000-0000-0000-0000-000000000000"}
 	}
-	return &[]Def{{V: "a"}, {V: "'b'"}, {V: "it's"}, {V: ""}, {V: "a b"}, {Raw: true, V: "lower('C')"}, {V: "\"dq\""}}[g.r.Intn(7)]
+	return &[]Def{{V: "a"}, {V: "'b'"}, {V: "it's"}, {V: ""}, {V: "a b"}, {Raw: true, V: "lower('C')"}, {V: "\"dq\""}, {V: "'(b)'"}, {Raw: true, V: "(lower('C'))"}}[g.r.Intn(9)]
 }
 
 func (g *G) col(name string, strict bool) Col {
@@ -90,17 +92,6 @@ func (g *G) freshCol(t *Table) string {
 	for k := 0; k < 30; k++ {
 		n := g.pick(colNames)
 		if !t.hasCol(n) {
-			if !g.allowKnown {
-				clash := false
-				for _, o := range t.Cols {
-					if o.Gen != nil && (strings.HasPrefix(o.Name, n) || strings.HasPrefix(n, o.Name)) {
-						clash = true
-					}
-				}
-				if clash {
-					continue
-				}
-			}
 			return n
 		}
 	}
@@ -121,14 +112,7 @@ func (g *G) genExpr(t *Table, strict bool) (Col, bool) {
 		return Col{}, false
 	}
 	c := Col{Name: g.freshCol(t), Type: src.Type, Null: true}
-	if !g.allowKnown { // a generated column whose name is a prefix of an earlier generated column's: known finding
-		for k := 0; k < 20 && prefixClash(t, c.Name); k++ {
-			c.Name = g.freshCol(t)
-		}
-		if prefixClash(t, c.Name) {
-			return Col{}, false
-		}
-	}
+	// (names that are a prefix of another generated column's name are generated too: C01-gen-col-name-prefix is fixed)
 	if strict && !hasStr(strictTys, c.Type) {
 		c.Type = "text"
 	}
@@ -252,7 +236,7 @@ func (g *G) check(t *Table, k int) (Check, bool) {
 	var e string
 	if isNumTy(c.Type) {
 		e = []string{"`%s` > 0", "(`%s` >= 0)", "`%s` <> 7", "(`%s` > 0 AND `%[1]s` < 100)"}[g.r.Intn(4)]
-		if g.allowKnown && g.r.Chance(1, 10) {
+		if g.r.Chance(1, 10) { // starts and ends with a paren without being one parenthesised expression
 			e = "(`%s` > 0) AND (`%[1]s` < 100)"
 		}
 	} else {
@@ -336,7 +320,7 @@ func (g *G) setPK(t *Table) {
 			t.AutoIncCols = []string{c}
 			cc.Def = nil
 		}
-	default: // composite, in column order (the other order is a known finding)
+	default: // composite, one time out of three not in column order (C01-pk-order is fixed)
 		if len(cols) < 2 {
 			c := cols[0]
 			t.col(c).Null = false
@@ -346,7 +330,7 @@ func (g *G) setPK(t *Table) {
 		i := g.r.Intn(len(cols) - 1)
 		j := i + 1 + g.r.Intn(len(cols)-i-1)
 		a, b := cols[i], cols[j]
-		if g.allowKnown && g.r.Chance(1, 6) {
+		if g.r.Chance(1, 3) {
 			a, b = b, a
 		}
 		t.col(a).Null, t.col(b).Null = false, false
@@ -827,8 +811,8 @@ func (g *G) pair1() (Schema, Schema, string) {
 }
 
 // inline UNIQUE constraints for a "current" schema created by foreign SQL; the desired schema keeps
-// them as the unique index Atlas would have created (<table>_<col>) unless allowKnown (dropping an
-// inline UNIQUE constraint through the ALTER path is a known finding)
+// them, two times out of three, as the unique index Atlas would have created (<table>_<col>); otherwise
+// the constraint has to go (a table rebuild since the fix of C01-drop-inline-unique)
 func (g *G) addUniques(s, b *Schema) bool {
 	done := false
 	for i := range s.Tables {
@@ -844,7 +828,7 @@ func (g *G) addUniques(s, b *Schema) bool {
 			}
 			t.Uniques = append(t.Uniques, []string{c})
 			done = true
-			if bt := b.table(t.Name); bt != nil && bt.hasCol(c) && (!g.allowKnown || g.r.Bool()) {
+			if bt := b.table(t.Name); bt != nil && bt.hasCol(c) && g.r.Chance(2, 3) { // otherwise the constraint is dropped: a rebuild
 				bt.Idx = append(bt.Idx, Idx{Name: t.Name + "_" + c, Unique: true, Parts: []Part{{Seq: 1, Col: c}}})
 			}
 		}
